@@ -481,6 +481,8 @@ with repair (fuel : nat) (stk : list node) (c : caller) (n : node) (s : state)
                  let dirty := emem (n, cal) (s_dirty s) in
                  if negb dirty && negb pedantic && negb (kind_eqb (nkind n) KProjection)
                  then walk r rtfc cleaned fr ms s
+                 else if (match alookup (i_obs i) cal with None => true | Some _ => false end)
+                 then Ok (DRecompute, fr, ms, s)     (* the previous run was cut at this (cyclic) dependency *)
                  else
                    let* (fr1, m1, s1) :=
                      if kind_eqb (nkind cal) KInput then Ok (fr, [], s)
